@@ -38,6 +38,9 @@ func runC13(w *World, r *Report) {
 		c04ReturnsDest(w, r, ctfk)
 	}
 	r.Remap = nil
+	r.Rule("C13/WIRING", "the value-reuse options are fed only from the options of the same name and bound to their own command-line flags", 3)
+	checkWiring(w, r, "C13/WIRING", map[string]bool{"ResetValues": true, "ReuseValues": true, "ResetThenReuseValues": true})
+	checkFlagBinding(w, r, "C13/WIRING", map[string]bool{"ResetValues": true, "ReuseValues": true, "ResetThenReuseValues": true})
 }
 
 type c13mode struct {
